@@ -39,13 +39,13 @@ S2(c1, c2) == Cat(Str1(c1), Str1(c2))
 S3(c1, c2, c3) == Cat(S2(c1, c2), Str1(c3))
 Us == Str1("_")
 
-InstQ == { S2("a","b"), R("a",40), S2("0","a"), Cat(Cat(R("a",40), Us), R("0",10)),                  \* valid
+InstQ == { S2("a","b"), R("a",40), S2("0","a"), Cat(Cat(R("a",40), Us), R("0",10)), S3("a","b","c"),  \* valid
            R("a",1), S2("1","2"), R("a",41), Cat(Cat(S2("a","b"), Us), R("0",11)), S2("A","b") }         \* invalid
 InstF == InstQ \cup
          { S2("a","0"), S3("a","-","b"), Cat(S2("a","b"), S2("_","k")),                                 \* valid
            Cat(S2("a","b"), Us), S3("-","a","b"), S3("a","b","-"), Cat(S2("a","-"), S2("-","b")),
            Cat(S2("a","b"), S2("_","K")), <<>>, S3("a",".","b") }                                       \* invalid
-CompQ == { NoComp, Comp(S2("c","d")), Comp(R("a",40)), Comp(R("1",1)), Comp(R("a",41)) }
+CompQ == { NoComp, Comp(S2("c","d")), Comp(S3("c","d","e")), Comp(R("a",40)), Comp(R("1",1)), Comp(R("a",41)) }
 CompF == CompQ \cup { Comp(S2("0","c")), Comp(R("c",1)), Comp(S2("C","d")), Comp(<<>>), Comp(S2("1","2")) }
 NameQ == { R("x",1), S3("x","-","y"), S2("X","1"), S2("1","x"), S2("x","-"), <<>>, S3("x",".","y"), HookLit }
 NameF == NameQ \cup { Cat(S2("x","-"), S2("-","y")), S2("-","x"), S3("x","+","y"), S2("x","!") }
@@ -69,13 +69,27 @@ FillNames(kind, inst, comp) ==
     IN {R("x", k - base) : k \in {k \in {255, 256, 257} : k > base}}
 
 OtherInst == S2("z","z")
+\* the basic owners a tag is asked for: its own, component toggled, an unrelated instance, the snap without key
 Queries(inst, comp) ==
     { [inst |-> inst, comp |-> comp],
       [inst |-> inst, comp |-> IF comp.has THEN NoComp ELSE Comp(S2("c","d"))],
       [inst |-> OtherInst, comp |-> comp],
       [inst |-> SnapOfInstance(inst), comp |-> comp] }
 
-TagQ(k, i, c, N) == UNION { { [t |-> GenTag(k, i, c, n), inst |-> q.inst, comp |-> q.comp] : q \in Queries(i, c) }
+\* owners RELATED to the ones inside the tag: proper prefix, proper extension, last character different,
+\* empty, and for instances also an added / extended instance key.  (A validator that compares only a prefix,
+\* or only up to the shorter length, agrees on equal and on unrelated owners and differs exactly here.)
+DropLast(s) == IF s = <<>> THEN <<>>
+               ELSE SubSeq(s, 1, Len(s) - 1) \o (IF s[Len(s)].n > 1 THEN <<Run(s[Len(s)].c, s[Len(s)].n - 1)>> ELSE <<>>)
+RelatedStr(s) == { DropLast(s), DropLast(DropLast(s)), Cat(s, Str1("d")), Cat(s, S2("-","d")),
+                   Cat(DropLast(s), Str1("z")), <<>> }
+RelatedQueries(inst, comp) ==
+    { [inst |-> i2, comp |-> comp] : i2 \in RelatedStr(inst) \cup {Cat(inst, S2("_","x")), Cat(inst, Str1("0"))} }
+    \cup (IF comp.has THEN { [inst |-> inst, comp |-> Comp(c2)] : c2 \in RelatedStr(comp.s) } ELSE {})
+PrimaryName == R("x", 1)           \* the related owners are asked for the tags with this app / hook name
+
+TagQ(k, i, c, N) == UNION { { [t |-> GenTag(k, i, c, n), inst |-> q.inst, comp |-> q.comp]
+                                : q \in Queries(i, c) \cup (IF n = PrimaryName THEN RelatedQueries(i, c) ELSE {}) }
                             : n \in N }
 TagDomKind(k) == UNION { TagQ(k, i, c, NameS0 \cup FillNames(k, i, c)) : i \in InstS, c \in CompS }
 TagDomBad == UNION { TagQ(k, i, c, NameQ) : k \in BadKinds, i \in {S2("a","b"), R("a",1)}, c \in {NoComp, Comp(S2("c","d"))} }
